@@ -30,7 +30,18 @@ def run(ctx):
     if bad:
         raise vlib.Infra("renderer / specification problem: %s %s" % (bad[0]["sig"], bad[0]["detail"][:500]))
     ctx.add_result(out)
+    # end to end: buf format (stdout), buf format -w (the file on disk), buf format -d --exit-code
+    rnd2 = random.Random(ctx.seed + 7)
+    sample = list(cases)
+    rnd2.shuffle(sample)
+    sample = sample[:300 if not thorough else 3000]
+    buf = ctx.build_buf()
+    n2 = ctx.vh("format-cli", {"buf": buf, "base": res["emit"]["BASE"][0], "cases": sample[:20], "corrupt": True})
+    if not n2["violations"]:
+        raise vlib.Infra("negative control of the end-to-end stage failed")
+    ctx.add_result(ctx.vh("format-cli", {"buf": buf, "base": res["emit"]["BASE"][0], "cases": sample}, timeout=12000), kind="cli")
     ctx.assumptions += [
+        "end to end: 300 (3000) seeded files on disk next to an already formatted one: the text buf format prints, the file buf format -w leaves on disk (most formatted texts are shorter than their source) and the library result are the same; buf format -d --exit-code is clean afterwards; the formatted file is untouched",
         "files are spellings of one skeleton (proto2 / proto3 / edition 2023) that contains every construct the formatter prints; a file differs from the canonical spelling in at most two slots",
         "meaning = the descriptor of the file compiled together with its option definitions, options interpreted, source info dropped, imports as a set",
         "a comment's declaration is the innermost declaration containing the token the parser attaches it to, in the input and in the output",
